@@ -13,6 +13,10 @@ def _ends_cr(case, mout):
     if case.get("op") == "readback" and case["args"][0].endswith("0d"):
         return True
     rp = case.get("rp") or []
+    # the several-signers constructor over the same texts: fresh message verifies, the re-read one does not
+    if len(rp) >= 2 and rp[0] == "cycle-many" and rp[1].endswith("0d") and not case.get("op"):
+        imp = str(case.get("impl", ""))
+        return " v0=1 " in imp and "signers-handed-signed-form=1" in imp
     # the same texts in the tampering stream: the conversions that must keep the signature valid start from a document that already does not verify
     return len(rp) >= 3 and rp[0] == "tamper" and rp[1].endswith("0d") and rp[2] in ("crlf", "trailing-blanks")
 
